@@ -46,6 +46,63 @@ func TestClient(t *testing.T) {
 	runSequentialPart(t, res, rng.Fork(1))
 	runConcPart(t, res, rng.Fork(2))
 	runRetryPart(t, res)
+	runUnlockFailurePart(t, res)
+}
+
+// (d) the Unlock RPC fails at transport level (before or after the server applied it) until the retry
+// budget is spent: Unlock returns the error - and from then on no renew for that hold is sent and
+// nothing panics ("once Unlock has returned ...", whatever Unlock returned).
+func runUnlockFailurePart(t *testing.T, res *common.Result) {
+	client.RetryDelaySeconds = 3
+	for M := 0; M <= 2; M++ {
+		for _, applied := range []bool{false, true} {
+			M, applied := M, applied
+			synctest.Test(t, func(t *testing.T) {
+				verifrt.Reset(false)
+				w, err := newWorld(M)
+				if err != nil {
+					t.Fatal(err)
+				}
+				defer w.close()
+				lk, lerr := w.c.Lock("x", &client.LockOptions{LockTimeoutSeconds: 40})
+				if lerr != nil || lk == nil || !lk.Locked {
+					t.Fatalf("setup: Lock(x) -> %v %v", lk, lerr)
+				}
+				time.Sleep(15 * time.Second) // one renew has been sent
+				synctest.Wait()
+				w.tr.mu.Lock()
+				w.tr.failUnlock, w.tr.failUnlockApplied = M+1, applied
+				w.tr.mu.Unlock()
+				var ok bool
+				var uerr error
+				pan := guard(func() { ok, uerr = w.c.Unlock("x", lk.Key) })
+				at, n0 := w.now(), w.tr.len()
+				time.Sleep(3 * 40 * time.Second)
+				synctest.Wait()
+				res.Count("part:d-unlock-failure-case")
+				res.Eval(fmt.Sprintf("d|M=%d applied=%v", M, applied), true)
+				late := 0
+				for _, e := range w.tr.snapshot()[n0:] {
+					if e.Method == "Renew" && e.Name == "x" {
+						late++
+					}
+				}
+				rp := map[string]any{"part": "d-unlock-failure", "max_retries": M, "unlock_applied_before_the_failure": applied, "unlock_returned": fmt.Sprintf("ok=%v err=%v", ok, uerr), "returned_at": at.String(), "rpcs": w.tr.snapshot()}
+				if late > 0 {
+					res.Find(common.Finding{Kind: "violation", Property: "C19", Signature: "client:renew-after-unlock:rpc-failed",
+						What: fmt.Sprintf("MaxRetries=%d, the Unlock RPC failed with Unavailable %d time(s) (server applied it: %v); Unlock returned (%v, %v) at %v and %d Renew RPC(s) for the hold were sent afterwards; required: none once Unlock has returned", M, M+1, applied, ok, uerr, at, late), Replay: rp})
+				}
+				ps := verifrt.Panics()
+				if pan != "" {
+					ps = append(ps, "caller: "+pan)
+				}
+				if len(ps) > 0 {
+					res.Find(common.Finding{Kind: "violation", Property: "C19", Signature: "client:panic:after-failed-unlock",
+						What: fmt.Sprintf("MaxRetries=%d, Unlock RPC failed with Unavailable (server applied it: %v): panics %v; required: nothing panics", M, applied, ps), Replay: rp})
+				}
+			})
+		}
+	}
 }
 
 // ---------------------------------------------------------------- (b) interleavings
